@@ -635,6 +635,17 @@ func prelude(t *testing.T) {
 			{Name: "u", Prefix: "row-number-", Kind: gen.KUnique}, {Name: "a", Kind: gen.KMod, K: 7, Prefix: "v"}}}}
 		run(t, &Case{Data: spec, Mode: "commit-points", Writer: w})
 	}
+	// 150 values whose bitmaps are 40 KiB each and do not compress (every
+	// tenth row over 300,000 rows: five full bitmap containers), 6 MiB
+	// together, among 1200 small ones: writers that treat large bitmaps
+	// separately, or bound a transaction by size, commit differently here
+	for _, w := range []int{fix.WMemFile} {
+		cols := []gen.ColSpec{{Name: "id", Kind: gen.KMod, K: 1200, Prefix: "i"}}
+		for j := 0; j < 15; j++ {
+			cols = append(cols, gen.ColSpec{Name: fmt.Sprintf("c%02d", j), Kind: gen.KMod, K: 10, Prefix: "d"})
+		}
+		run(t, &Case{Data: gen.DataSpec{Recipe: &gen.Recipe{N: 300000, Cols: cols}}, Mode: "commit-points", Writer: w})
+	}
 	// three bitmaps of more than a page among 1000k-3 .. 1000k+1 small ones
 	for _, n := range []int{6997, 6998, 6999, 7000, 7001} {
 		for _, w := range []int{fix.WMemFile, fix.WMemBolt} {
